@@ -36,6 +36,11 @@ type Part struct {
 	// which package Context.LocateInPackage finds the type's position (taken from go/types' import graph,
 	// without asking gengo for that package first).
 	Locate string `json:"locate,omitempty"`
+	// Names: two comment lines naming the type being generated, once from its object (snippet.ID(obj)) and once
+	// from its qualified name (snippet.ID("path.Name")), in that order or (Flip) the other way round:
+	// "// NAMEOF obj path.Name = <text>" / "// NAMEOF ref path.Name = <text>".
+	Names bool `json:"names,omitempty"`
+	Flip  bool `json:"flip,omitempty"`
 	// Bulk: a valid declaration of about Bulk KiB (a generated table), named after Text.
 	Bulk int `json:"bulk,omitempty"`
 }
